@@ -498,7 +498,7 @@ pub fn plan(tier: &str) -> Plan {
     // an outsider joins / monitors / links the starting actor while its start fails: explored with a
     // decision point before every DashMap, lock and atomic operation of every task
     let s_kinds: &'static [vsched::PointKind] = &[vsched::PointKind::Atomic, vsched::PointKind::Lock, vsched::PointKind::Map, vsched::PointKind::Other];
-    let fine = ExecCfg { filter: Some(std::sync::Arc::new(move |k, _l, _t| s_kinds.contains(&k))), ..Default::default() };
+    let fine = ExecCfg { filter: Some(std::sync::Arc::new(move |k, l, _t| s_kinds.contains(&k) && l != "mpsc.recv.ready")), ..Default::default() };
     for kind in kinds {
         for (variant, cause) in [(Variant::Plain, Cause::PreStartErr), (Variant::Linked, Cause::PreStartPanic), (Variant::Plain, Cause::KilledDuringStart), (Variant::Instant, Cause::PreStartErr)] {
             if !thorough && kind == Kind::Local && variant != Variant::Plain {
